@@ -26,6 +26,8 @@ type Scenario struct {
 	Check func(x *Exec) (fp, what string)
 	// Outcome classifies the execution for vacuity accounting (distinct observed outcomes).
 	Outcome func(x *Exec) string
+	// Discard releases what an execution left behind when it is not checked (see Options.Discard).
+	Discard func(x *Exec)
 	// Counters returns additive per-execution counts (e.g. crash images checked) for the evidence.
 	Counters func(x *Exec) map[string]int
 }
@@ -237,6 +239,7 @@ func child(r *ev.Run, scenarios []Scenario, shard, shards int) {
 		opt := sc.Opt
 		opt.Shard, opt.Shards = shard, shards
 		opt.Expired = func() bool { return time.Now().After(deadline) }
+		opt.Discard = sc.Discard
 		sr.Stats = Explore(opt, sc.Body, func(x *Exec) {
 			if fp, what := judge(sc, x); fp != "" {
 				if len(sr.Viol) < 50 {
